@@ -124,9 +124,9 @@ func quickFamilies(r *explore.Run) []*wgen.Family {
 
 func baseFamilies(r *explore.Run) []*wgen.Family {
 	if r.Thorough() {
-		return []*wgen.Family{wgen.F1(), wgen.F2(3, false), wgen.F2(5, true), wgen.F2L(3, false), wgen.F2L(4, true), wgen.F4c(true)}
+		return []*wgen.Family{wgen.F1(), wgen.F2(3, false), wgen.F2(5, true), wgen.F2L(3, false), wgen.F2L(4, true), wgen.F4c(true), wgen.F2Mini(5, 3)}
 	}
-	return []*wgen.Family{wgen.F1(), wgen.F2(2, false), wgen.F2(4, true), wgen.F2L(2, false), wgen.F2L(3, true), wgen.F4c(false)}
+	return []*wgen.Family{wgen.F1(), wgen.F2(2, false), wgen.F2(4, true), wgen.F2L(2, false), wgen.F2L(3, true), wgen.F4c(false), wgen.F2Mini(4, 3)}
 }
 
 // prog is one program presented to a per-program check.
@@ -182,6 +182,9 @@ func familyByName(name string) *wgen.Family {
 	var mini int
 	if n, _ := fmt.Sscanf(name, "F2Lm%dk%d", &mini, &k); n == 2 {
 		return wgen.F2LMini(k, mini)
+	}
+	if n, _ := fmt.Sscanf(name, "F2m%dk%d", &mini, &k); n == 2 {
+		return wgen.F2Mini(k, mini)
 	}
 	if n, _ := fmt.Sscanf(name, "F2Lk%d", &k); n == 1 {
 		return wgen.F2L(k, strings.HasSuffix(name, "core"))
